@@ -262,11 +262,13 @@ def rule_line_range(ctx, F):
         ctx.bad("T6", "line_range:slice-bounded-by-text", "line_range no longer clamps the window to the text (`min(max_line_len, text.len() - line_start)`): a name near the end of the file slices past the text")
     # line length: newline, else valid prefix, else whole window
     ld = []
-    for i in fn.ids_named("line_len"):
-        ld += [inline_text(fn, d) for d in fn.defs(i) if isinstance(d, dict) and d.get("k") != "uninit"]
+    for lc in fn.j.get("locals", []) or []:
+        ds = [deep_text(fn, d) for d in fn.defs(lc["id"]) if isinstance(d, dict) and d.get("k") != "uninit"]
+        if not str(lc.get("name", "_")).startswith("_") and any("valid_up_to" in d for d in ds):
+            ld = ds
     nl = [c for pt, c, d in calls_named(fn, "memchr") if strip(c["a"][0]).get("v") == 10]
     vu = calls_named(fn, "Utf8Error", "valid_up_to")
-    if nl and vu and any("valid_up_to" in d for d in ld) and any(d == "max_line_len" for d in ld) and len(ld) == 3:
+    if nl and vu and any("valid_up_to" in d for d in ld) and len(ld) == 3 and sum(1 for d in ld if "memchr" in d) == 1 and sum(1 for d in ld if "valid_up_to" in d) == 1 and sum(1 for d in ld if "memchr" not in d and "valid_up_to" not in d and "Ord::min" in d) == 1:
         ctx.ok("T6", "line_range:cut-at-newline-or-valid-prefix", "line length = position of '\\n', else the valid UTF-8 prefix of the window, else the window")
     else:
         ctx.bad("T6", "line_range:cut-at-newline-or-valid-prefix", "line_range's length is no longer {memchr('\\n'), Utf8Error::valid_up_to, max_line_len} (definitions: %s): the line can end inside a character or run past the newline" % ld)
